@@ -112,10 +112,16 @@ impl RecSched {
                 }
                 let free: Vec<usize> = ids.iter().copied().filter(|i| !self.stalled.iter().any(|(t, _)| t == i) && !(yielding && Some(*i) == cur)).collect();
                 if free.is_empty() {
-                    // everything runnable is set aside (or yielding): release the earliest
-                    let pick = ids.iter().copied().min_by_key(|i| self.stalled.iter().find(|(t, _)| t == i).map(|(_, u)| *u).unwrap_or(0)).unwrap();
-                    self.stalled.retain(|(t, _)| *t != pick);
-                    pick
+                    // Everything runnable is set aside or yielding. A yielding (spinning) thread
+                    // waits for someone else: release the stalled thread that is due first rather
+                    // than letting the spinner burn the stall away.
+                    match ids.iter().copied().filter(|i| self.stalled.iter().any(|(t, _)| t == i)).min_by_key(|i| self.stalled.iter().find(|(t, _)| t == i).map(|(_, u)| *u).unwrap_or(0)) {
+                        Some(pick) => {
+                            self.stalled.retain(|(t, _)| *t != pick);
+                            pick
+                        }
+                        None => ids[0],
+                    }
                 } else {
                     free[self.rng.usize(free.len())]
                 }
